@@ -13,7 +13,7 @@ for a in args[2:]:
         k, v = a.split('=', 1)[0][6:], a.split('=', 1)[1]
     if a.startswith('-O'):
         k, v = a[2:].split('=')
-        opts[k] = int(v) if v.lstrip('-').isdigit() else v
+        opts[k] = int(v) if v.lstrip('-').isdigit() else (__import__('ast').literal_eval(v) if v[:1] in '[({' else v)
 if '-v' in args: opts['verbose'] = 1
 d = os.environ.get('E1DEV_DIR', '/var/tmp/w/dev')
 os.makedirs(d, exist_ok=True)
